@@ -23,6 +23,7 @@ from photutils.segmentation.utils import _make_binary_structure
 from photutils.utils._optional_deps import tqdm
 from photutils.utils._progress_bars import add_progress_bar
 from photutils.utils._stats import nanmax, nanmin, nansum
+from photutils.utils._verif import emit as _verif_emit
 
 __all__ = ['deblend_sources']
 
@@ -217,6 +218,9 @@ def deblend_sources(data, segment_img, npixels, *, labels=None, nlevels=32,
                     new_segm + max_label)
                 new_labels = _get_labels(new_segm) + max_label
                 deblend_label_map[label] = new_labels
+                _verif_emit('merge', label=int(label),
+                            max_before=int(max_label),
+                            n_new=len(new_labels))
                 max_label += len(new_labels)
 
     else:
@@ -253,6 +257,7 @@ def deblend_sources(data, segment_img, npixels, *, labels=None, nlevels=32,
             # Submit all jobs at once
             for index, args in enumerate(args_all):
                 futures_dict[executor.submit(worker, *args)] = index
+                _verif_emit('submit', idx=index)
 
             with tqdm(total=len(labels), desc='Deblending',
                       disable=disable_pbar) as pbar:
@@ -262,6 +267,7 @@ def deblend_sources(data, segment_img, npixels, *, labels=None, nlevels=32,
                     idx = futures_dict[future]
                     pbar.set_postfix_str(f'ID: {labels[idx]}')
                     results[idx] = future.result()
+                    _verif_emit('complete', idx=idx)
 
         # Process the results
         nonposmin_labels = []
@@ -284,6 +290,9 @@ def deblend_sources(data, segment_img, npixels, *, labels=None, nlevels=32,
                     new_segm + max_label)
                 new_labels = _get_labels(new_segm) + max_label
                 deblend_label_map[label] = new_labels
+                _verif_emit('merge', label=int(label),
+                            max_before=int(max_label),
+                            n_new=len(new_labels))
                 max_label += len(new_labels)
 
     # process any warnings during deblending
